@@ -214,13 +214,13 @@ _p("C03", modules=["robustness", "demux", "ports", "quic_output", "main_run"], l
               "only (decryptor output, the record, its direction) is ever exported; main.handle_quic_packet raises nothing for any non-empty UDP payload; Session.generate_keys raises at most ValueError (a secret with an odd number of hex "
               "digits) for any subset of key-log lines, labels and suites, and that exception is stopped by the per-record barrier; a DSB's text "
               "never reaches the packet parser; a QUIC session without output contributes nothing; isolation = C04's routing and frame obligations.",
-   level_note="level 'other': NOT covered - exception freedom inside QuicSession.handle_packet / extract_quic_packet / decrypt_packet (struct-based dissector not under contract; "
-              "it relies on its own blanket try/except; a contract is written in contracts/robustness.py but not registered because the engine does not decide it in reasonable time), and the 'at most a prefix of the true plaintext' "
+   level_note="level 'other': NOT covered - exception freedom inside QuicSession.handle_packet / extract_quic_packet / decrypt_packet (the dissector itself IS under contract in the thorough tier only - extract_quic_packet raises nothing and always consumes input for arbitrary datagrams, about 5 minutes - "
+              "but its callers' loops are not), and the 'at most a prefix of the true plaintext' "
               "clause, which is a statement about AEAD/CBC under wrong keys",
    design_ref="DESIGN.md 4 C03",
    explanation="The TLS record path and the UDP entry point are proved exception-free for all inputs; the QUIC dissector path and key-derivation failures are listed as not under contract.",
    assumptions=["every library call may raise on any input (cryptography, dpkt)"], trusted_base=[],
-   not_under_contract=["tlexport.quic.quic_dissector.extract_quic_packet", "QuicSession.handle_packet loop / decrypt_packet's decryptor lookup before its try block"])
+   not_under_contract=["QuicSession.handle_packet loop / decrypt_packet's decryptor lookup before its try block", "extract_quic_packet in the QUICK tier (thorough only)"])
 
 _p("C01", modules=["record_protection", "framing", "keys", "cipher_suites", "tcp_output", "robustness", "metadata"], level="other",
    technique="contract-based deductive verification of every link of the TLS pipeline (per-function contracts; primitives uninterpreted); composition on paper",
@@ -249,13 +249,13 @@ _p("C02", modules=["quic_session_c", "quic_output", "demux", "quic_pkn", "keys",
               "order; frames (C17, unbounded); handle_frame appends STREAM (and CRYPTO) frames in order and registers NEW_CONNECTION_ID for its sender; Retry resets exactly the "
               "handshake state; CRYPTO reassembly delivers the stream bytes in order for every arrival order (BOUNDED to 3 fragments); output grouping per capture timestamp "
               "with direction and payload (transition relation + final flush).",
-   level_note="level 'other': extract_quic_packet's header field extraction (struct formats, DCID/SCID/token/length fields, coalesced packets) and check_key_epoch are NOT under "
-              "contract; the composition into 'one output datagram per input datagram' is on paper; AEADs are uninterpreted",
+   level_note="level 'other': extract_quic_packet's header FIELD extraction (DCID/SCID/token/length fields, coalesced packets) is not specified by a contract - only its exception "
+              "freedom and progress are (thorough tier); check_key_epoch's epoch bookkeeping is under contract (quic.key_epoch); the composition into 'one output datagram per input datagram' is on paper; AEADs are uninterpreted",
    design_ref="DESIGN.md 4 C02",
    explanation="All links except the dissector's long/short header field extraction are proved per function; the dissector is listed as unverified and the end-to-end composition is a paper argument.",
    assumptions=[], trusted_base=["cryptography AEADs", "struct (dissector, not under contract)"],
    bounded=[{"function": "QuicTlsSession.update_session", "bound": "a CRYPTO stream prefix cut into <= 3 fragments (any cut points, any order)", "counted_as": "bounded"}],
-   not_under_contract=["tlexport.quic.quic_dissector.extract_quic_packet (field extraction)", "QuicSession.check_key_epoch", "QuicTlsSession.handle_buffer/handle_client_hello/handle_server_hello"])
+   not_under_contract=["tlexport.quic.quic_dissector.extract_quic_packet (field extraction)", "QuicTlsSession.handle_buffer/handle_client_hello/handle_server_hello"])
 
 _p("C13", modules=["metadata", "quic_output", "tcp_output", "robustness", "record_protection"], level="other",
    technique="contract-based deductive verification: two-run (product) contract on the record handler + builder contracts parametrised by the flag",
